@@ -210,3 +210,24 @@ _extend("C19", _SCEN.replace("AES block function, CRC-16 and EC operations", "fi
         "Additionally: DER primitives (length field, OCTET STRING, SEQUENCE, constructed, BIT STRING with symbolic content of enumerated lengths; INTEGER and OID on enumerated values) encode as X.690 prescribes and the decoders invert them; public-key raw / uncompressed / DER encodings for symbolic coordinates equal X||Y, 04||X||Y and the RFC 5480 SubjectPublicKeyInfo whose 27-byte prefix bec2format strips; private scalars outside [1, n-1] are refused before the public point is formed.")
 _extend("C20", "class-body scan for shared lock objects",
         "Additionally: every light switch creates its own mutex in __init__ (a class-level Lock is shared by the read and the write switch).")
+
+# ---- round 5 of breaking changes and the two refactoring rounds
+_extend("C01", "sibling agreement of the text codec of the reader's and writer's open() calls",
+        "Additionally: both open() calls use the same encoding / errors arguments, so non-ASCII comment text survives a path round trip.")
+_extend("C05", "appended bytes must be refused (scenario verdict stricter than for C04)",
+        "Additionally: an authentic image followed by extra bytes is rejected by from_binary, not merely read as the original content.")
+_extend("C07", "write / read / write-under-another-key scenario against the independent reference writer",
+        "Additionally: a file object read under one session key and written under another is encrypted and authenticated entirely under the new key.")
+_extend("C10", "path count of traversals of an Iterable parameter; set_config scenarios (list / tuple / iterator of extra blocks)",
+        "Additionally: the caller's extra blocks are traversed at most once on any path (a generator gives its items once) and reach the component framed and unchanged.")
+_extend("C14", "per-call-site proof that the MAC input is non-empty (exact reads of more than K bytes precede cmac(X[:-K]))",
+        "Additionally: every cmac() call reachable from a parser gets provably non-empty data, except the one call site recorded as a known finding.")
+_extend("C17", "truth-table rule for the infinity shortcuts of the addition dispatcher; evaluation of the recoding / NAF-walk terms with the checker's arithmetic on a grid of scalars",
+        "Additionally: _add skips an operand exactly when its Y or Z is zero (both encodings of infinity occur); the signed-digit steps satisfy k = 2k' + d for scalars of every residue mod 4 however the conditional is spelled.")
+_extend("C18", "reuse of the C17 dispatcher and multiply-add rules; bits2int / bits2octets compared with RFC 6979 2.3 on a grid of values",
+        "Additionally: the point arithmetic the verdict is computed with satisfies the C17 dispatcher and multiply-add rules.")
+_extend("C13", "interpretation of is_known_tagtype on its complete domain (-1..256) against the folded range table",
+        "Additionally: a tag type is known exactly when one of the table's ranges contains it, both ends inclusive.")
+for _pid in ("C10", "C11", "C16"):
+    _extend(_pid, "shape fallback: where a structural rule does not recognise the spelling of a clause and the scenario group for that clause holds, the clause is reported as decided on the enumerated scenarios only",
+            "")
